@@ -152,6 +152,13 @@ pub assume_specification<H, I> [hkdf::Hkdf::<H, I>::expand_multi_info] (this: &h
         final(okm)@.len() == old(okm)@.len(),
         r is Ok <==> old(okm)@.len() <= 255 * nh_of::<H>(),
         r is Ok ==> final(okm)@ == hkdf_expand(nh_of::<H>(), this.prk(), concat_all(infos@), old(okm)@.len());
+// the single-info form (not used by the pinned code; declared so that a change which flattens the info first stays decidable)
+pub assume_specification<H, I> [hkdf::Hkdf::<H, I>::expand] (this: &hkdf::Hkdf<H, I>, info: &[u8], okm: &mut [u8]) -> (r: Result<(), hkdf::InvalidLength>)
+    where H: digest::OutputSizeUser, I: hkdf::HmacImpl<H>,
+    ensures
+        final(okm)@.len() == old(okm)@.len(),
+        r is Ok <==> old(okm)@.len() <= 255 * nh_of::<H>(),
+        r is Ok ==> final(okm)@ == hkdf_expand(nh_of::<H>(), this.prk(), info@, old(okm)@.len());
 }
 
 verus!{
@@ -313,7 +320,7 @@ pub uninterp spec fn scalar_ok<C>(b: Bytes) -> bool;
 // uncompressed SEC1 encoding of sk*G;  x-coordinate of sk*P
 pub uninterp spec fn ec_base<C>(sk: Bytes) -> Bytes;
 pub uninterp spec fn ec_dh<C>(sk: Bytes, pk: Bytes) -> Bytes;
-// field-element length in bytes of curve C (32 / 48 / 66), cross-checked by Kani `sizes_table`
+// field-element length in bytes of curve C (32 / 48 / 66), cross-checked by Kani `kem_ids_table`
 pub uninterp spec fn ec_flen<C>() -> nat;
 pub broadcast axiom fn ec_flen_p256() ensures #[trigger] ec_flen::<p256::NistP256>() == 32;
 pub broadcast axiom fn ec_flen_p384() ensures #[trigger] ec_flen::<p384::NistP384>() == 48;
@@ -344,7 +351,7 @@ impl<C: ::elliptic_curve::Curve> CurveOf for ::elliptic_curve::SecretKey<C> { ty
 verus!{
 // ---------------------------------------------------------------- sizes of the external algorithm types
 // (associated-type projections of impls outside the crate are opaque to Verus; each value is
-// cross-checked by the Kani harness `sizes_table`)
+// cross-checked by the Kani harnesses `aead_ids_and_sizes_table`, `kdf_ids_table`)
 pub broadcast axiom fn nh_sha256() ensures #[trigger] nh_of::<sha2::Sha256>() == 32;
 pub broadcast axiom fn nh_sha384() ensures #[trigger] nh_of::<sha2::Sha384>() == 48;
 pub broadcast axiom fn nh_sha512() ensures #[trigger] nh_of::<sha2::Sha512>() == 64;
